@@ -21,10 +21,23 @@ use tokio::{io::{AsyncReadExt, AsyncWriteExt}, time::Instant};
 
 use crate::{
     common::{Opts, Rng, Sink},
-    sim::{self, Honest, PacketTap, Pair, PairCfg},
+    sim::{self, Adversary, Delivery, Dgram, Honest, PacketTap, Pair, PairCfg, WireLog},
 };
 
 pub const RUNS: &[(&str, fn(&Opts))] = &[("c17_close", run_close), ("c17_idle", run_idle)];
+
+/// identity network until `cut` is set, then a black hole: the way to inject an ERROR (loss of the only path) at a chosen phase
+struct Cuttable(Arc<std::sync::atomic::AtomicBool>);
+impl Adversary for Cuttable {
+    fn on_send(&mut self, _idx: u64, _now: Duration, d: &Dgram, log: &mut WireLog) -> Vec<Delivery> {
+        if self.0.load(std::sync::atomic::Ordering::Relaxed) {
+            log.bump("blackholed");
+            vec![]
+        } else {
+            vec![Delivery { extra: Duration::ZERO, dgram: d.clone(), genuine: true }]
+        }
+    }
+}
 
 type Log = Arc<Mutex<Vec<(String, u64, String)>>>; // (op, virtual µs of completion, result)
 
@@ -60,7 +73,8 @@ async fn close_case(phase: u8, closer: u8, again: bool, tap: Arc<PacketTap>) -> 
     let mut cfg = PairCfg::default().with_qlog(tap).idle_timeout(idle);
     cfg.server_params.set(ParameterId::InitialMaxStreamDataBidiRemote, 4096u32).expect("p");
     cfg.client_params.set(ParameterId::InitialMaxStreamsUni, 0u32).expect("p");
-    let pair = Pair::build(Box::new(Honest), cfg).await;
+    let cut = Arc::new(std::sync::atomic::AtomicBool::new(false));
+    let pair = Pair::build(Box::new(Cuttable(cut.clone())), cfg).await;
     let t0 = Instant::now();
     let log: Log = Arc::new(Mutex::new(vec![]));
     let started = Arc::new(Mutex::new(vec![]));
@@ -119,6 +133,23 @@ async fn close_case(phase: u8, closer: u8, again: bool, tap: Arc<PacketTap>) -> 
     }
     let now_us = || (Instant::now() - t0).as_micros() as u64;
     let sc = sconn.lock().unwrap().clone();
+    if closer == 4 {
+        // error injection: from now on nothing is delivered in either direction; nobody calls close
+        cut.store(true, std::sync::atomic::Ordering::Relaxed);
+        out.notes.push(format!("cut at {} us", now_us()));
+        tokio::time::sleep(idle + Duration::from_secs(3)).await;
+        for (ep, conn) in [("c", Some(cc.clone())), ("s", sc.clone())] {
+            let Some(conn) = conn else { continue };
+            let k = tokio::time::timeout(Duration::from_millis(10), conn.terminated()).await.map(|e| sim::err_kind(&e)).unwrap_or("pending".into());
+            out.term.push((format!("{ep}:cut"), k));
+            let r = tokio::time::timeout(Duration::from_millis(100), conn.open_bi_stream()).await;
+            let rs = match r { Err(_) => "pending".to_string(), Ok(Ok(_)) => "ok".into(), Ok(Err(_)) => "err".into() };
+            out.late.push((format!("{ep}:open_bi"), rs, 0));
+        }
+        out.started = started.lock().unwrap().clone();
+        out.done = log.lock().unwrap().clone();
+        return out;
+    }
     if closer == 1 || closer == 2 {
         if let Some(s) = &sc { let _ = s.close("server closes", 7); out.t_close_s = Some(now_us()) } else { out.notes.push("server had no connection yet".into()) }
     }
@@ -171,7 +202,7 @@ fn run_close(o: &Opts) {
         let hs: Vec<_> = chunk.iter().map(|&id| std::thread::spawn(move || {
             // the first 40 cases enumerate phase × closer × again, later ones are seeded
             let mut rng = Rng::new(seed ^ 0x17, id);
-            let (phase, closer, again) = if id < 40 { ((id % 5) as u8, ((id / 5) % 4) as u8, id >= 20) } else { (rng.below(5) as u8, rng.below(4) as u8, rng.chance(1, 2)) };
+            let (phase, closer, again) = if id < 40 { ((id % 5) as u8, ((id / 5) % 4) as u8, id >= 20) } else if id < 45 { ((id % 5) as u8, 4, false) } else { (rng.below(5) as u8, rng.below(5) as u8, rng.chance(1, 2)) };
             let tap = PacketTap::new();
             let t2 = tap.clone();
             let res = sim::run_case(id, Duration::from_secs(100), move || close_case(phase, closer, again, t2));
@@ -180,7 +211,7 @@ fn run_close(o: &Opts) {
         for h in hs {
             let (id, phase, closer, again, res, pk) = h.join().expect("case thread");
             sink.case(&id.to_string());
-            let cname = ["client", "server", "both", "client-two-tasks"][closer as usize];
+            let cname = ["client", "server", "both", "client-two-tasks", "path-cut"][closer as usize];
             sink.branch(&format!("phase:{phase}"));
             sink.branch(&format!("closer:{cname}"));
             for loc in &res.panics { sink.monitor_fail(&format!("panic:{loc}"), &format!("a task panicked at {loc} (close phase {phase} by {cname})")) }
@@ -217,7 +248,13 @@ fn run_close(o: &Opts) {
                     sink.monitor_fail(&format!("late_op_not_failed:{}", &name[2..]), &format!("{name} started after close() returned is {r} after {us} µs (phase {phase}, {cname})"));
                 }
             }
+            if closer == 4 {
+                for (who, k) in &out.term {
+                    if k == "pending" { sink.monitor_fail(&format!("error_not_reported:{}", &who[..1]), &format!("the only path was cut at phase {phase}; {} s later {who} has not reported termination (idle timeout 5 s)", 8)) }
+                }
+            }
             for pair in out.term.chunks(2) {
+                if closer == 4 { break }
                 if pair[0].1 == "pending" { sink.monitor_fail("close_not_terminated", &format!("terminated() of {} not resolved 200 ms after close (phase {phase}, {cname})", pair[0].0)) }
                 else if pair.len() == 2 && pair[0].1 != pair[1].1 { sink.monitor_fail("terminated_changes", &format!("{:?}", pair)) }
             }
